@@ -15,7 +15,7 @@ PLAN = dict(
     tiers=dict(
         quick=[det("rel", H, "cs-rel", 16, 200, 4, tso=True, time_cap=30),
                det("dbg", H, "cs-dbg", 16, 80, 4, tso=True, time_cap=25),
-               tsan("C07", 4, 80)],
+               tsan("C07", 8, 240)],
         thorough=[det("rel", H, "cs-rel", 16, 2600, 5, tso=True, time_cap=300),
                   det("dbg", H, "cs-dbg", 16, 800, 5, tso=True, time_cap=200),
                   det("enum-conflict", H, "cs-rel", 16, 60, 2, tso=True, time_cap=120, enum="conflict", enum_cap=150),
